@@ -1,9 +1,150 @@
-(* C04 — property theorems only. *)
+(* C04 — a freshly written or touched block survives garbage collection for the TTL.
+   Property theorems only; each is closed by `exact` of a lemma from proofs/C04_*.v.
+   (H) history level: model/C04_model.v, explicit clock [now] (ns) per request.
+   (I) interleaving level: model/C04_race.v, steps = the yield points of the instrumented
+       unix_volume.go; every interleaving of a TOUCH/PUT request with a DELETE request. *)
 From Coq Require Import ZArith NArith List String Bool.
-From AV Require Import lib.Str model.C04_model model.C04_run proofs.C04_proofs.
+From AV Require Import lib.Str model.C04_model model.C04_run model.C04_race model.C04_race_run
+  proofs.C04_proofs proofs.C04_frame_proofs proofs.C04_race_proofs.
 Import ListNotations.
 Local Open Scope Z_scope.
 
-Theorem C04_deadline_whole_seconds : forall c now, deadline c now = (now + life c) / NS.
+(* ================= (H) ================= *)
+
+(* fresh_survives: after an acknowledged Put/Touch of h at time t, for every history of further
+   requests (Put, Touch, Get, trash lists, Delete, EmptyTrash, Untrash of other hashes) with a
+   non-decreasing clock that stays below t + ttl, some volume holds h as a block file with timestamp
+   >= t.  Every prefix of such a history is such a history, so this holds at every later point. *)
+Theorem C04_fresh_survives : forall c s t o h code s1 hs,
+  (o = Put h \/ o = Touch h) -> step c s t o = (code, s1) -> code = 200%N ->
+  nondecr t hs -> Forall (fun p => fst p < t + ttl c /\ snd p <> Untrash h) hs ->
+  exists v m, In v (vols (final c s1 hs)) /\ find_block (v_blocks v) h = Some m /\ t <= m.
+Proof. exact fresh_survives_clock. Qed.
+Print Assumptions C04_fresh_survives.
+
+(* F20 (genuine defect, still in /repo): with an Untrash of the same hash in the history the statement
+   is false — Untrash renames an older trashed copy over the fresh block file, the next Delete
+   trashes it: no volume holds the block although the Put was acknowledged less than ttl ago *)
+Theorem C04_fresh_survives_untrash_refuted :
+  exists c s t h code s1 hs,
+    step c s t (Put h) = (code, s1) /\ code = 200%N /\ nondecr t hs /\
+    Forall (fun p => fst p < t + ttl c) hs /\
+    ~ (exists v m, In v (vols (final c s1 hs)) /\ find_block (v_blocks v) h = Some m).
+Proof. exact fresh_survives_untrash_refuted. Qed.
+Print Assumptions C04_fresh_survives_untrash_refuted.
+
+(* what a single request can do to a single volume *)
+Theorem C04_step_shape : forall c now s o, Forall2 (change c now o) (vols s) (vols (snd (step c s now o))).
+Proof. exact step_shape. Qed.
+Print Assumptions C04_step_shape.
+
+(* trash_only_matching, trash_only_writable_enabled *)
+Theorem C04_trash_only_matching : forall c now s o,
+  Forall2 (fun v v' => forall h m, find_block (v_blocks v) h = Some m -> find_block (v_blocks v') h = None ->
+     v_ro v = false /\ blob_trash c = true /\ ttl c <= now - m /\
+     (o = Delete h \/
+      exists its it, o = TrashList its /\ In it its /\ i_hash it = h /\ i_mtime it = m /\
+                     (i_mount it = ""%string \/ i_mount it = v_uuid v) /\ ttl c <= now - i_mtime it))
+    (vols s) (vols (snd (step c s now o))).
+Proof. exact trash_only_matching. Qed.
+Print Assumptions C04_trash_only_matching.
+
+Theorem C04_readonly_unchanged : forall c now s o,
+  Forall2 (fun v v' => v_ro v = true -> v' = v) (vols s) (vols (snd (step c s now o))).
+Proof. exact readonly_unchanged. Qed.
+Print Assumptions C04_readonly_unchanged.
+
+Theorem C04_trash_disabled_unchanged : forall c now s o, blob_trash c = false ->
+  (match o with Delete _ | TrashList _ => True | _ => False end) ->
+  Forall2 (fun v v' => v' = v) (vols s) (vols (snd (step c s now o))).
+Proof. exact trash_disabled_unchanged. Qed.
+Print Assumptions C04_trash_disabled_unchanged.
+
+(* untrash_until_deadline *)
+Theorem C04_untrash_until_deadline : forall c h d i hs s v now,
+  nth_error (vols s) i = Some v ->
+  (v_ro v = false /\ exists t, In t (v_trash v) /\ t_hash t = h /\ t_dead t = d) ->
+  Forall (fun p => fst p / NS < d /\ snd p <> Untrash h) hs ->
+  let s1 := final c s hs in
+  fst (step c s1 now (Untrash h)) = 200%N /\
+  exists v', nth_error (vols (snd (step c s1 now (Untrash h)))) i = Some v' /\ has_block v' h = true.
+Proof. exact untrash_until_deadline. Qed.
+Print Assumptions C04_untrash_until_deadline.
+
+(* emptytrash_only_expired *)
+Theorem C04_emptytrash_only_expired : forall c now s,
+  Forall2 (fun v v' => v_blocks v' = v_blocks v /\
+                       (forall t, In t (v_trash v') -> In t (v_trash v)) /\
+                       (forall t, In t (v_trash v) -> ~ In t (v_trash v') -> t_dead t <= now / NS /\ v_ro v = false) /\
+                       (forall t, In t (v_trash v) -> now / NS < t_dead t -> In t (v_trash v')))
+    (vols s) (vols (snd (step c s now EmptyTrash))).
+Proof. exact emptytrash_only_expired. Qed.
+Print Assumptions C04_emptytrash_only_expired.
+
+(* deadline_whole_seconds *)
+Theorem C04_deadline_whole_seconds : forall c now s o,
+  Forall2 (fun v v' => forall t, In t (v_trash v') -> ~ In t (v_trash v) ->
+             t_dead t = (now + life c) / NS /\ exists m, find_block (v_blocks v) (t_hash t) = Some m /\ t_mtime t = m)
+    (vols s) (vols (snd (step c s now o))).
 Proof. exact deadline_whole_seconds. Qed.
 Print Assumptions C04_deadline_whole_seconds.
+
+(* ================= (I) ================= *)
+Local Close Scope Z_scope.
+
+(* the enumeration the decisions (and the harness) rest on is complete and sound for the step relation *)
+Theorem C04_finals_complete : forall fuel n s s', n <= fuel -> rrun n s s' -> succs s' = [] -> In s' (finals fuel s).
+Proof. exact finals_complete. Qed.
+Print Assumptions C04_finals_complete.
+
+Theorem C04_finals_sound : forall fuel s s', In s' (finals fuel s) -> exists n, rrun n s s'.
+Proof. exact finals_sound. Qed.
+Print Assumptions C04_finals_sound.
+
+Theorem C04_runs_bounded : forall p put rm n s, rrun n (init p put rm) s -> n <= FUEL.
+Proof. exact runs_bounded. Qed.
+Print Assumptions C04_runs_bounded.
+
+Theorem C04_schedules_complete : forall fuel s sch s',
+  List.length sch <= fuel -> exec s sch = Some s' -> succs s' = [] -> In sch (schedules fuel s).
+Proof. exact schedules_complete. Qed.
+Print Assumptions C04_schedules_complete.
+
+(* touch_trash_race: EVERY interleaving of a TOUCH request and Trash, every prior state, both trash
+   modes: Touch fails or the block is at its path; nobody deadlocks *)
+Theorem C04_touch_trash_race : forall p rm n s,
+  rrun n (init p false rm) s -> succs s = [] -> contract s = true /\ both_done s = true.
+Proof. exact touch_trash_race. Qed.
+Print Assumptions C04_touch_trash_race.
+
+(* put_trash_race for an absent or intact pre-existing copy *)
+Theorem C04_put_trash_race_partial : forall p rm n s,
+  p <> POldCorrupt ->
+  rrun n (init p true rm) s -> succs s = [] -> contract s = true /\ both_done s = true.
+Proof. exact put_trash_race_partial. Qed.
+Print Assumptions C04_put_trash_race_partial.
+
+(* F7 (genuine defect, still in /repo): with a corrupt old copy, WriteBlock (no flock) can replace the
+   file between Trash's stat and Trash's rename/unlink *)
+Theorem C04_put_trash_race_corrupt_refuted : forall rm,
+  exists n s, rrun n (init POldCorrupt true rm) s /\ succs s = [] /\ contract s = false /\ put_acked_but_gone s = true.
+Proof. exact put_trash_race_corrupt_refuted. Qed.
+Print Assumptions C04_put_trash_race_corrupt_refuted.
+
+(* ... and only then: every maximal schedule outside the F7 trigger keeps the contract *)
+Theorem C04_put_trash_race_corrupt_partial : forall rm sch s,
+  exec (init POldCorrupt true rm) sch = Some s -> succs s = [] ->
+  f7_trigger rm (labels (init POldCorrupt true rm) sch) = false -> contract s = true.
+Proof. exact put_trash_race_corrupt_partial. Qed.
+Print Assumptions C04_put_trash_race_corrupt_partial.
+
+Theorem C04_fresh_block_never_trashed : forall put rm n s,
+  rrun n (init PFreshGood put rm) s -> succs s = [] -> exists i, at_path s = Some i /\ i_cont i = Good.
+Proof. exact fresh_block_never_trashed. Qed.
+Print Assumptions C04_fresh_block_never_trashed.
+
+Theorem C04_example_schedule :
+  exists s, exec (init POldGood false false) [TA; TA; TA; TA; TA; TB; TB; TB; TB; TB] = Some s /\ succs s = [] /\
+            a_ok s = true /\ contract s = true.
+Proof. exact ex_touch_first. Qed.
+Print Assumptions C04_example_schedule.
